@@ -214,3 +214,68 @@ def sorted_set(interp, s: SymSet):
     res.filter_of = getattr(out, "filter_of", None)
     res.sorted_of_set = s
     return res
+
+
+# ---------------------------------------------------------------------------------------------
+# dict with symbolic integer keys (e.g. index -> antipodal index): membership predicate + value function
+# ---------------------------------------------------------------------------------------------
+
+class SymDict(Val):
+    def __init__(self, has, get):
+        self.has = has      # z3 Int -> z3 Bool
+        self.get = get      # z3 Int -> Val
+
+    def snapshot(self):
+        return SymDict(self.has, self.get)
+
+
+@lib("builtins.dict")
+def _b_dict(interp, args, kwargs):
+    if args or kwargs:
+        raise Unsupported("dict(...) with arguments")
+    return SymDict(lambda k: z3.BoolVal(False), lambda k: Num(z3.IntVal(0), True))
+
+
+@method("SymDict", "__setitem__")
+def _sd_set(interp, self: SymDict, args, kwargs):
+    k, v = args
+    if not (isinstance(k, Num) and k.is_int):
+        raise Unsupported("symbolic dict with a non-integer key")
+    kz = k.z
+    oh, og = self.has, self.get
+    self.has = lambda x: z3.Or(zint(x) == kz, oh(x))
+    self.get = lambda x: ite_val(zint(x) == kz, v, og(x))
+    return NONE
+
+
+@method("SymDict", "__getitem__")
+def _sd_get(interp, self: SymDict, args, kwargs):
+    k = args[0]
+    if not (isinstance(k, Num) and k.is_int):
+        raise Unsupported("symbolic dict with a non-integer key")
+    if not interp.ctx.branch(self.has(k.z), "dict-key-present"):
+        raise PyRaise("KeyError", "key not in dict")
+    return self.get(k.z)
+
+
+@method("SymDict", "__contains__")
+def _sd_contains(interp, self: SymDict, args, kwargs):
+    k = args[0]
+    if not (isinstance(k, Num) and k.is_int):
+        return lift(False)
+    return Bool(self.has(k.z))
+
+
+class KeysView(Val):
+    def __init__(self, d):
+        self.d = d
+
+
+@method("SymDict", "keys")
+def _sd_keys(interp, self, args, kwargs):
+    return KeysView(self)
+
+
+@method("KeysView", "__contains__")
+def _kv_contains(interp, self, args, kwargs):
+    return _sd_contains(interp, self.d, args, kwargs)
